@@ -107,7 +107,7 @@ def report(ctx, recs, verdict, label):
 def run(ctx):
     quick = ctx.quick
     # ---- M + S2C: operational machine ------------------------------------------------------------
-    grids = [(3, 2, gc.KINDS5)] if quick else [(3, 2, gc.KINDS5), (4, 2, [0, 49, 50, 51]), (2, 3, gc.KINDS5), (3, 2, [0, 50, 51, 52, 77])]
+    grids = [(3, 2, gc.KINDS5)] if quick else [(3, 2, gc.KINDS5), (4, 2, [0, 50, 51]), (2, 3, gc.KINDS5), (3, 2, [0, 50, 51, 52, 77])]
     for rows, cols, kinds in grids:
         res = tlc.run(module="MC_Grouping", cfg=mc_cfg(rows, cols, kinds), dirs=gc.DIRS, workers=16, timeout=3000, heap="8g")
         if res.invariant_violated:
